@@ -6,6 +6,8 @@ tag=$1; shift
 wt=/tmp/wt/$tag; vs=/tmp/vs/$tag
 [ -d "$wt" ] || { echo "no worktree $wt"; exit 2; }
 ( cd $wt && git apply -R --check /tmp/seedout/$tag/patch.diff 2>/dev/null ) || { echo "patch not applied in $wt"; exit 2; }
+# a hook commit made in /repo after the worktree was created: move the worktree to /repo's HEAD (its local change is carried over)
+[ "$(git -C $wt rev-parse HEAD)" = "$(git -C /repo rev-parse HEAD)" ] || git -C $wt checkout -q --detach "$(git -C /repo rev-parse HEAD)" || { echo "cannot move $wt to /repo HEAD"; exit 2; }
 rm -rf $vs; mkdir -p $vs
 rsync -a --exclude .git --exclude /build --exclude '/replays/*' --exclude /harness/bin --exclude /seeded /verif/ $vs/
 sed -i "s#^replace github.com/zen-eth/shisui => /repo#replace github.com/zen-eth/shisui => $wt#" $vs/harness/go.mod
